@@ -87,13 +87,25 @@ def load_map():
 
 
 def attempt(pid, ob):
-    """try to turn a failed obligation into a failing input on the real code."""
+    """try to turn a failed obligation into a failing input on the real code: the drivers whose pattern matches the obligation
+    (its identifier, or identifier and clause text for entries with `match_text`) are run in the order of the map, at most
+    three of them, until one observes a violation of the property statement."""
+    first = None; tried = []
     for ent in load_map():
         if ent.get('property') not in (None, pid): continue
-        if re.search(ent['match'], ob['id']):
-            ok, text = run_driver(ent['driver'], ent.get('args', []))
-            return {'reproduced': ok, 'scenario': {'driver': 'replay/%s.cpp' % ent['driver'], 'args': ent.get('args', []), 'derived_from': ent.get('derived_from', 'contract clause and solver model')},
-                    'observed': text}
+        if not re.search(ent['match'], ob['id']): continue
+        if ent.get('match_text') and not re.search(ent['match_text'], ob.get('text', '')): continue
+        if ent['driver'] in tried: continue
+        tried.append(ent['driver'])
+        ok, text = run_driver(ent['driver'], ent.get('args', []))
+        res = {'reproduced': ok, 'scenario': {'driver': 'replay/%s.cpp' % ent['driver'], 'args': ent.get('args', []), 'derived_from': ent.get('derived_from', 'contract clause and solver model')},
+               'observed': text}
+        if ok: return res
+        if first is None: first = res
+        if len(tried) >= 3: break
+    if first is not None:
+        if len(tried) > 1: first['observed'] += '\n(also tried without reproducing: %s)' % ', '.join(tried[1:])
+        return first
     return {'reproduced': None, 'scenario': None, 'observed': 'no replay driver matches this obligation'}
 
 
